@@ -5,6 +5,7 @@ from .rules import c11 as R_c11
 from .rules import c08 as R_c08
 from .rules import c05 as R_c05
 from .rules import cas as R_cas
+from .rules import c10 as R_c10
 
 Q = ("quick", "thorough")
 T = ("thorough",)
@@ -146,5 +147,24 @@ PROPS = {
         technique="effect (attribute-store) analysis with receiver provenance + table<->table comparison of pickling state",
         trusted_base=["provenance classifier and declared-mutator table in vstat/rules/cas.py"],
         assumptions=[],
+    ),
+    "C10": dict(
+        title="Symbolic results do not depend on analysis history",
+        explanation=(
+            "Decides the mechanism the property names: code of the architecture layer never mutates a shared expression object "
+            "in place and never writes process-global state while decoding or executing symbolically. (R-SHMUT) over every "
+            "function of amoco/arch spec/asm/utils/env modules (2750 functions, 1486 semantics): no .sf=/.size=/.v=/.signed()/"
+            ".unsigned() on an instruction operand, a module-level register, or what fmap(x) returns for such x, directly or "
+            "through a helper summarised as mutating its parameter (cas.utils.AddWithCarry/SubWithBorrow); (R-GLOBALW) nothing "
+            "reachable from i_XXX stores to module-level state; (R-REGTYPE) regtype.cur / reg._subrefs writers; plus the "
+            "algebra-side aliasing rules R-ALIASRET (comp never hands out itself) and R-OWN (register entries of a mapper are "
+            "mapper-owned) and R-OPPURE. Does NOT decide leakage through eval paths whose aliasing depends on which rewrite fires."
+        ),
+        rules=[(R_c10.r_shmut, Q), (R_c10.r_globalw_sem, Q), (R_c10.r_regtype, Q), (R_cas.r_aliasret, Q), (R_cas.r_own_mapper, Q)],
+        level_text="partial (the core clause): alias/provenance analysis of every mutation site in the architecture layer (364 sites) with one-level helper summaries, and a who-may-write scan over the 1596 functions reachable from semantics; tests never evaluate a stored map after unrelated work",
+        level_note="Trusted: receiver provenance is classified by syntactic origin (operands element, env-module binding, fmap of those, constructor result); operator results and helper results are 'unknown' and listed as undecided (134 sites), never alarmed. 190 definite sites on the unchanged tree are genuine (118 confirmed by observing the mutation at run time during triage) and are listed as known findings: the sign flag is stored on shared objects by design in this code base.",
+        technique="alias/provenance (taint) analysis of attribute stores with one-level interprocedural summaries + who-may-write effect scan",
+        trusted_base=["provenance classifier in vstat/rules/c10.py", "vstat.callgraph"],
+        assumptions=["module-level bindings of env* modules are shared expression objects"],
     ),
 }
